@@ -225,6 +225,24 @@ class Context:
             raise AnalysisError(what)
 
 
+BENIGN_DECORATORS = {"property", "staticmethod", "classmethod", "dataclass", "dataclasses.dataclass", "wraps", "functools.wraps",
+                     "lru_cache", "functools.lru_cache", "cache", "functools.cache", "overload", "typing.overload", "final", "typing.final",
+                     "no_type_check", "typing.no_type_check", "abstractmethod", "abc.abstractmethod"}
+
+
+def opaque_decorators(fn) -> list:
+    """decorators of a function definition that can change what a call does with its arguments or result (everything except the
+    standard ones that keep both: property / staticmethod / classmethod, functools.wraps, lru_cache / cache -- whose effect on
+    shared state is the business of C16 / C17 --, typing markers).  An evaluator that meets one does not follow the function."""
+    out = []
+    for d in getattr(fn, "decorator_list", None) or []:
+        e = d.func if isinstance(d, ast.Call) else d
+        text = src(e)
+        if text not in BENIGN_DECORATORS and text.split(".")[-1] not in ("setter", "getter", "deleter"):
+            out.append("@" + src(d))
+    return out
+
+
 class Recorder:
     """Obligation sink with the Context API, used inside worker processes."""
 
